@@ -172,6 +172,23 @@ func ProcessDeposit(spec *common.Spec, epc *common.EpochsContext, state common.B
 		} else {
 			epc.ValidatorPubkeyCache = pc
 		}
+		// Keep the cached effective balances aligned with the registry (once they are loaded).
+		if n := uint64(len(epc.EffectiveBalances)); n == valCount {
+			validators, err = state.Validators()
+			if err != nil {
+				return err
+			}
+			newVal, err := validators.Validator(valIndex)
+			if err != nil {
+				return err
+			}
+			effBal, err := newVal.EffectiveBalance()
+			if err != nil {
+				return err
+			}
+			// cloned contexts share the slice: never append in place
+			epc.EffectiveBalances = append(epc.EffectiveBalances[:n:n], effBal)
+		}
 	} else {
 		// Increase balance by deposit amount
 		bals, err := state.Balances()
